@@ -56,6 +56,7 @@ package soy
 //@   ghost globalsSet bool = false
 //@   ghost globalsErr error = nil
 //@   ghost msgsDone bool = false
+//@   at call (*Registry).Add#0 assert[each-compilation-registers-trees-it-has-just-parsed;C13,C07] fresh(arg1)
 //@   at call parsepasses.CheckDataRefs#0 after set checked = true
 //@   at call parsepasses.CheckDataRefs#0 after set checkErr = res
 //@   at call parsepasses.SetGlobals#0 assert[references-checked-before-globals;C07] checked && checkErr == nil
